@@ -68,6 +68,10 @@ func genC01(g *rand.Rand, tier string) any {
 	if p.Topo.Kind >= TopoDemux {
 		p.Topo.Clients = 1 + g.IntN(3)
 	}
+	if p.Topo.Kind == TopoDirect && g.IntN(2) == 0 {
+		// one Server object serving several connections, each over its own transport
+		p.Topo.Clients = 2 + g.IntN(2)
+	}
 	p.Topo.Links = drawLinks(g, 2+2*p.Topo.Clients+2)
 	maxK := 64
 	if p.Topo.Kind == TopoProxy || p.Topo.Kind == TopoProxyDemux {
